@@ -8,7 +8,7 @@ one() {
   d=$(mktemp -d /tmp/hvseed.XXXXXX)
   rsync -a --exclude .git --exclude '__pycache__' /repo/ "$d/repo/"
   if ! (cd "$d/repo" && patch -p1 -s < "$patch" >/dev/null 2>&1); then echo "$id PATCH-FAILED"; rm -rf "$d"; return; fi
-  out=$(VERIF_REPO="$d/repo" VERIF_EVIDENCE_DIR="$d/ev" VERIF_REPLAY_DIR="$d/replays" VERIF_JOBS=4 /venv/bin/python -m hv.run "$prop" 2>&1); rc=$?
+  out=$(VERIF_REPO="$d/repo" VERIF_EVIDENCE_DIR="$d/ev" VERIF_REPLAY_DIR="${SEED_REPLAY_ROOT:-$d/replays}${SEED_REPLAY_ROOT:+/$id}" VERIF_JOBS=4 /venv/bin/python -m hv.run "$prop" 2>&1); rc=$?
   clause=$(echo "$out" | grep -E "^  clause=" | head -1 | cut -c1-150)
   case $rc in 1) echo "$id DETECTED $clause";; 0) echo "$id MISSED";; *) echo "$id ERROR rc=$rc $(echo "$out" | grep HARNESS | head -1 | cut -c1-150)";; esac
   rm -rf "$d"
